@@ -1,0 +1,16 @@
+//! Verification hooks, compiled only with the cargo feature `divan_verif`.
+//!
+//! Everything in here is inert unless a harness installs a scheduler (see
+//! [`sched`]) on the current thread: the instrumented `std` drop-ins in
+//! [`vstd`] delegate to the real `std`, [`event`] is a no-op and the virtual
+//! clock in [`clock`] reports "not installed".
+//!
+//! Std-only on purpose: no dependency or lock-file change is needed.
+#![allow(missing_docs, clippy::all, dead_code)]
+
+pub mod api;
+pub mod clock;
+pub mod sched;
+pub mod vstd;
+
+pub use sched::{event, Ev};
